@@ -4032,6 +4032,15 @@ class State:
                 ),
             )
 
+        for card in cards:
+            if cards.count(card) > self.hole_cards[player_index].count(card):
+                raise ValueError(
+                    (
+                        f'The card {repr(card)} is discarded more times than'
+                        ' it is held.'
+                    ),
+                )
+
         return cards
 
     def can_stand_pat_or_discard(self, cards: CardsLike = ()) -> bool:
